@@ -2047,6 +2047,16 @@ func ruleProcBothMaps(c *Ctx) []Obligation {
 			for _, a := range x.Call.Args {
 				tables(a, seen, out)
 			}
+			// a helper that builds the list: what it returns
+			if cal := x.Call.StaticCallee(); cal != nil && c.isRepoFn(cal) && cal.Blocks != nil && len(seen) < 400 {
+				for _, b := range cal.Blocks {
+					if r, isR := b.Instrs[len(b.Instrs)-1].(*ssa.Return); isR {
+						for _, rv := range r.Results {
+							tables(rv, seen, out)
+						}
+					}
+				}
+			}
 		}
 	}
 	var obs []Obligation
@@ -2374,8 +2384,68 @@ func ruleNsDupKey(c *Ctx) []Obligation {
 				differs = true
 			}
 		}
+		// … and of a different NAME: two revisions of one module share their namespace and both sit in the table
+		otherName := false
+		namesDiffer := func(g Guard) bool {
+			bo, isB := g.Cond.(*ssa.BinOp)
+			if !isB || (bo.Op != token.EQL && bo.Op != token.NEQ) {
+				return false
+			}
+			_, fx, _ := loadedField(bo.X)
+			_, fy, _ := loadedField(bo.Y)
+			return fx != nil && fx == fy && fx.Name() == "Name" && (bo.Op == token.NEQ) == g.Branch
+		}
+		gs := guardsAt(b)
+		// `case found != nil && sameName: … case found != nil: fail`: the conjunction was false and the failing arm's
+		// own test says its first conjunct is true, so the second conjunct was false. (In the SSA form the checker
+		// builds, a && b is a phi: false on the edge where a is false, b on the other.)
+		sameCond := func(a, b ssa.Value) bool {
+			x, ok1 := a.(*ssa.BinOp)
+			y, ok2 := b.(*ssa.BinOp)
+			if !ok1 || !ok2 || x.Op != y.Op {
+				return a == b
+			}
+			same := func(u, v ssa.Value) bool { return u == v || isNilConst(u) && isNilConst(v) || sameExpr(u, v) }
+			return same(x.X, y.X) && same(x.Y, y.Y)
+		}
+		for _, g := range append([]Guard{}, gs...) {
+			phi, isPhi := g.Cond.(*ssa.Phi)
+			if !isPhi || g.Branch || len(phi.Edges) != 2 {
+				continue
+			}
+			for i, e := range phi.Edges {
+				k, isK := e.(*ssa.Const)
+				if !isK || k.Value == nil || k.Value.String() != "false" {
+					continue
+				}
+				p := phi.Block().Preds[i]
+				pif, isPif := p.Instrs[len(p.Instrs)-1].(*ssa.If)
+				if !isPif {
+					continue
+				}
+				// the first conjunct: false on the edge p → phi block
+				aFalseOnEdge := p.Succs[1] == phi.Block()
+				if !aFalseOnEdge {
+					continue
+				}
+				for _, g2 := range gs {
+					if g2.Branch && sameCond(g2.Cond, pif.Cond) {
+						gs = append(gs, Guard{Cond: phi.Edges[1-i], Branch: false, If: g.If})
+					}
+				}
+			}
+		}
+		for _, g := range gs {
+			if namesDiffer(g) {
+				otherName = true
+			}
+		}
+		if differs && !otherName {
+			obs = append(obs, bad(R, con, c.InstrPos(r), "the clash is reported for any second module object with the namespace, also for another REVISION of the module already found (same name): with two revisions loaded every node of the module has no instantiating module"))
+			continue
+		}
 		if differs {
-			obs = append(obs, ok(R, con, c.InstrPos(r), "under `this module != the one found`"))
+			obs = append(obs, ok(R, con, c.InstrPos(r), "under `this module != the one found` and `its name differs`"))
 		} else {
 			obs = append(obs, bad(R, con, c.InstrPos(r), "the table holds every module with a revision under two keys (name and name@revision); without a test that the second match is a different module, the namespace of any such module `matches two or more modules` and its nodes cannot be attributed"))
 		}
@@ -2730,6 +2800,7 @@ func ruleRangeCoalesce(c *Ctx) []Obligation {
 		o.Trivial = true
 		return []Obligation{o}
 	}
+	_ = out
 	// every read or write of a .Max of an indexed element inside the merging loop is on the output list
 	var obs []Obligation
 	n := 0
@@ -2757,6 +2828,73 @@ func ruleRangeCoalesce(c *Ctx) []Obligation {
 		o := ok(R, "coalesce: indexed upper-bound accesses", c.Pos(fn.Pos()), "none in a loop: another shape, not decided")
 		o.Trivial = true
 		obs = append(obs, o)
+	}
+	// nothing derived from the part being built is carried round the loop past a change of that part: a loop-carried
+	// value computed from x.Max (say max + one quantum, cached) must be renewed on every path that stores x.Max
+	for _, h := range fn.Blocks {
+		if !isLoopHeader(h) {
+			continue
+		}
+		for _, in := range h.Instrs {
+			phi, isPhi := in.(*ssa.Phi)
+			if !isPhi {
+				continue
+			}
+			// which cells' .Max does the phi depend on
+			dep := map[*ssa.Alloc]bool{}
+			for _, e := range phi.Edges {
+				var walk func(v ssa.Value, d int)
+				walk = func(v ssa.Value, d int) {
+					if d > 6 {
+						return
+					}
+					switch x := v.(type) {
+					case *ssa.Call:
+						for _, a := range x.Call.Args {
+							walk(a, d+1)
+						}
+					case *ssa.UnOp:
+						if fa, isFA := x.X.(*ssa.FieldAddr); isFA {
+							if _, f, _ := fieldOf(fa); f == fMax {
+								if a, isA := fa.X.(*ssa.Alloc); isA {
+									dep[a] = true
+								}
+							}
+						}
+					case *ssa.BinOp:
+						walk(x.X, d+1)
+						walk(x.Y, d+1)
+					}
+				}
+				walk(e, 0)
+			}
+			for a := range dep {
+				for i, e := range phi.Edges {
+					p := h.Preds[i]
+					if !h.Dominates(p) || e != ssa.Value(phi) {
+						continue // entry edge, or renewed on this edge
+					}
+					// a store to a.Max on a path header → p
+					eachInstr(fn, func(in2 ssa.Instruction) {
+						st, isS := in2.(*ssa.Store)
+						if !isS {
+							return
+						}
+						fa, isFA := st.Addr.(*ssa.FieldAddr)
+						if !isFA || fa.X != ssa.Value(a) {
+							return
+						}
+						if _, f, _ := fieldOf(fa); f != fMax {
+							return
+						}
+						b := st.Block()
+						if h.Dominates(b) && (b == p || blockReaches(b, p, map[*ssa.BasicBlock]bool{h: true})) {
+							obs = append(obs, bad(R, "coalesce: what is derived from the current part's upper bound is renewed when the bound grows", c.InstrPos(st), "a value computed from the upper bound of the part being built is carried into the next iteration unchanged on the path that extends that bound: the next part is compared with the bound as it was, so a part that abuts only the extension starts a new part (uncoalesced, overlapping output)"))
+						}
+					})
+				}
+			}
+		}
 	}
 	// equality of two parts looks at both bounds of both
 	if eq := c.Fn("yang.(YRange).Equal"); eq != nil {
@@ -2790,6 +2928,84 @@ func ruleRangeCoalesce(c *Ctx) []Obligation {
 		} else {
 			obs = append(obs, bad(R, con, c.Pos(eq.Pos()), "a bound of one of the two parts is never read: parts that differ in that bound compare equal, and a restriction that changes only that bound is taken for `unchanged`"))
 		}
+	}
+	return obs
+}
+
+func init() {
+	register(&Rule{Name: "CMP.PARALLEL", Props: []string{"C05", "C11", "C09"}, Floor: 2,
+		Doc: "the comparator handed to sort.Slice / sort.SliceStable indexes nothing but the slice that is being sorted (a parallel slice of keys is not permuted with it)",
+		Run: ruleCmpParallel})
+}
+
+func ruleCmpParallel(c *Ctx) []Obligation {
+	const R = "CMP.PARALLEL"
+	var obs []Obligation
+	for _, fn := range c.Funcs {
+		if fn.Blocks == nil || !c.isRepoFn(fn) {
+			continue
+		}
+		n := 0
+		eachInstr(fn, func(in ssa.Instruction) {
+			call, isC := in.(*ssa.Call)
+			if !isC || !(calleeIs(call, "sort", "Slice") || calleeIs(call, "sort", "SliceStable")) || len(call.Call.Args) != 2 {
+				return
+			}
+			mc, isMC := call.Call.Args[1].(*ssa.MakeClosure)
+			if !isMC {
+				return
+			}
+			less, _ := mc.Fn.(*ssa.Function)
+			if less == nil || len(less.Params) != 2 {
+				return
+			}
+			sorted := call.Call.Args[0]
+			if mi, isMI := sorted.(*ssa.MakeInterface); isMI {
+				sorted = mi.X
+			}
+			// the cell (or value) the sorted slice is read from
+			cellOf := func(v ssa.Value) ssa.Value {
+				if u, isU := v.(*ssa.UnOp); isU && u.Op == token.MUL {
+					return u.X
+				}
+				return v
+			}
+			sortedCell := cellOf(sorted)
+			n++
+			con := fmt.Sprintf("%s: comparator of sort call #%d indexes only the slice being sorted", c.FnName(fn), n)
+			foreign := ""
+			eachInstr(less, func(in2 ssa.Instruction) {
+				var base, idx ssa.Value
+				switch x := in2.(type) {
+				case *ssa.IndexAddr:
+					base, idx = x.X, x.Index
+				case *ssa.Index:
+					base, idx = x.X, x.Index
+				default:
+					return
+				}
+				if idx != ssa.Value(less.Params[0]) && idx != ssa.Value(less.Params[1]) {
+					return
+				}
+				// resolve a free variable to what the closure was made with
+				b := cellOf(base)
+				if fv, isFV := b.(*ssa.FreeVar); isFV {
+					for i, f := range less.FreeVars {
+						if f == fv && i < len(mc.Bindings) {
+							b = mc.Bindings[i]
+						}
+					}
+				}
+				if b != sortedCell && b != sorted {
+					foreign = c.InstrPos(in2)
+				}
+			})
+			if foreign == "" {
+				obs = append(obs, ok(R, con, c.InstrPos(call), "less(i, j) reads x[i] and x[j] of the sorted x only"))
+			} else {
+				obs = append(obs, bad(R, con, foreign, "the comparator indexes another slice with the positions it is given: the sort permutes only the slice it sorts, so after the first swap the keys no longer belong to the elements they are compared for, and the result depends on the input (map) order"))
+			}
+		})
 	}
 	return obs
 }
